@@ -252,6 +252,12 @@ func (s *SIP) DecodeFromBytes(data []byte, df gopacket.DecodeFeedback) error {
 	var offset int
 	var eoh = false // track End Of Headers
 
+	// s may be a zero value that was not created by NewSIP
+	if s.Headers == nil {
+		s.Headers = make(map[string][]string)
+		s.contentLength = -1
+	}
+
 	// Iterate on all lines of the SIP Headers
 	// and stop when we reach the SDP (aka when the new line
 	// is at index 0 of the remaining packet)
@@ -327,7 +333,7 @@ func (s *SIP) setBaseLayer(data []byte, offset int, df gopacket.DecodeFeedback) 
 	} else if s.contentLength == 0 {
 		// We have a zero Content-Length, no payload
 		s.BaseLayer = BaseLayer{Contents: data[:offset], Payload: []byte{}} // no payload
-	} else if len(data) < offset+s.contentLength {
+	} else if len(data)-offset < s.contentLength {
 		// Not enough data to fulfill the Content-Length. We set the packet as truncated
 		// and return what we have. The receiver of the packet will be able to determine this
 		// by comparing the SIP.ContentLength with the length of the SIP.Payload.
@@ -428,7 +434,11 @@ func (s *SIP) ParseHeader(header []byte) (err error) {
 	if header[0] == '\t' || header[0] == ' ' {
 
 		header = bytes.TrimSpace(header)
-		s.Headers[s.lastHeaderParsed][len(s.Headers[s.lastHeaderParsed])-1] += fmt.Sprintf(" %s", string(header))
+		last := s.Headers[s.lastHeaderParsed]
+		if len(last) == 0 {
+			return fmt.Errorf("invalid SIP header continuation line without preceding header: '%s'", string(header))
+		}
+		last[len(last)-1] += fmt.Sprintf(" %s", string(header))
 		return
 	}
 
@@ -440,6 +450,9 @@ func (s *SIP) ParseHeader(header []byte) (err error) {
 		headerValue := string(bytes.Trim(header[index+1:], " "))
 
 		// Add header to object
+		if s.Headers == nil {
+			s.Headers = make(map[string][]string)
+		}
 		s.Headers[headerName] = append(s.Headers[headerName], headerValue)
 		s.lastHeaderParsed = headerName
 
